@@ -14,6 +14,7 @@ import FcProofs.Lemmas.MergeStructured
 import FcProofs.Lemmas.MergeDecomposition
 import FcProofs.Lemmas.MergeDecomposition3
 import FcProofs.Lemmas.MergeRead
+import FcProofs.Lemmas.MergeHyp
 namespace Fc
 open Fc.C06 Fc.C06.Spec
 
@@ -162,6 +163,48 @@ theorem C06_unstructured_partial (srt : List (List Int) → List Nat) (hsrt : So
           · exact Or.inl hgi
           · exact Or.inr ⟨g, hg', hgi⟩
       simp only [this]
+
+/-- **C06 (the driver's hypothesis is the theorems' hypothesis).**  `mergeHyp` is the decidable
+    hypothesis the driver evaluates on every correspondence case (every piece well-formed, without
+    coincident points, with complete cell data; all pieces of one space dimension and one field
+    schema).  It implies `PieceOk` — the hypothesis of `C06_merge_step_partial` /
+    `C06_unstructured_partial` — for every piece, with ONE dimension, ONE set of field names (those
+    of the first listed piece) and ONE entry size and numeric type per field name. -/
+theorem C06_hyp_sound (f0 : MeshFields) (rest : List MeshFields) (h : mergeHyp (f0 :: rest) = true) :
+    ∃ (rsC rsP : String → Nat) (dtC dtP : String → DType), ∀ f ∈ f0 :: rest,
+      PieceOk f f0.mesh.dim (dedupNames (f0.cellFields.map (·.name))) (f0.pointFields.map (·.name))
+        rsC rsP dtC dtP :=
+  ⟨_, _, _, _, mergeHyp_sound f0 rest h⟩
+
+/-- **C06 (unstructured, stated with the decidable hypothesis).**  `C06_unstructured_partial` with
+    `PieceOk` replaced by the Bool `mergeHyp` the driver prints (`hyp=1`): what the harness re-checks
+    at run time on every generated partition (hyp ∧ partition ∧ conforming ∧ ¬F3 ⇒ reads as the
+    whole) is this theorem.  Still `_partial`: `f3Class pieces = false` is necessary (finding F3). -/
+theorem C06_unstructured_hyp_partial (srt : List (List Int) → List Nat) (hsrt : SortsRows srt)
+    (whole f0 : MeshFields) (rest : List MeshFields)
+    (hyp : mergeHyp (f0 :: rest) = true)
+    (hconf : whole.mesh.points.Nodup)
+    (hcells : ∀ ct, (cellItemsOf whole (dedupNames (f0.cellFields.map (·.name))) ct).Perm
+      ((f0 :: rest).flatMap (cellItemsOf · (dedupNames (f0.cellFields.map (·.name))) ct)))
+    (hpts1 : ∀ f ∈ f0 :: rest, ∀ it ∈ pointItemsOf f (f0.pointFields.map (·.name)),
+      it ∈ pointItemsOf whole (f0.pointFields.map (·.name)))
+    (hpts2 : ∀ it ∈ pointItemsOf whole (f0.pointFields.map (·.name)),
+      ∃ f ∈ f0 :: rest, it ∈ pointItemsOf f (f0.pointFields.map (·.name)))
+    (hnew : f3Class (f0 :: rest) = false) :
+    ∃ (rsC rsP : String → Nat) (dtC dtP : String → DType) (m : MeshFields),
+      (∀ f ∈ f0 :: rest, PieceOk f f0.mesh.dim (dedupNames (f0.cellFields.map (·.name)))
+        (f0.pointFields.map (·.name)) rsC rsP dtC dtP) ∧
+      mergeAll srt (f0 :: rest) = some m ∧
+      (∀ ct, (cellItemsOf m (dedupNames (f0.cellFields.map (·.name))) ct).Perm
+        (cellItemsOf whole (dedupNames (f0.cellFields.map (·.name))) ct)) ∧
+      (pointItemsOf m (f0.pointFields.map (·.name))).Perm (pointItemsOf whole (f0.pointFields.map (·.name))) ∧
+      m.mesh.points.Nodup ∧
+      -- every field of the result has the entry size and numeric type it has in every piece
+      PieceOk m f0.mesh.dim (dedupNames (f0.cellFields.map (·.name))) (f0.pointFields.map (·.name))
+        rsC rsP dtC dtP := by
+  obtain ⟨m, hm, hc, hp, hnd, hok⟩ := C06_unstructured_partial srt hsrt _ _ _ _ _ _ _ whole (f0 :: rest)
+    (mergeHyp_sound f0 rest hyp) hconf hcells hpts1 hpts2 (List.cons_ne_nil _ _) hnew
+  exact ⟨_, _, _, _, m, mergeHyp_sound f0 rest hyp, hm, hc, hp, hnd, hok⟩
 
 /-- **C06 (structured index maps).**  For every dimension, every lattice shape and every axis-aligned
     decomposition `d` (cells per piece along each direction; every direction has at least one piece):
